@@ -82,10 +82,26 @@ def is_public(idx, fi, exported):
 def repr_reads(idx, ci):
     """attributes read by name in the representation-relevant methods of class ci (own and inherited)"""
     reads = set(METADATA)
+    # the representation-relevant methods and the private methods of the object they call (transitively)
+    relevant, work = set(), []
     for c in idx.mro(ci):
         for mname, m in c.methods.items():
             is_prop = any(isinstance(d, ast.Name) and d.id == "property" for d in m.node.decorator_list)
-            if mname not in REPR_METHODS and not is_prop:
+            if mname in REPR_METHODS or is_prop:
+                work.append(m)
+    while work:
+        m = work.pop()
+        if id(m.node) in relevant:
+            continue
+        relevant.add(id(m.node))
+        for c_ in df.calls(m.node):
+            if isinstance(c_.func, ast.Attribute) and isinstance(c_.func.value, ast.Name) and c_.func.value.id == "self":
+                h = idx.find_method(ci, c_.func.attr)
+                if h is not None and id(h.node) not in relevant:
+                    work.append(h)
+    for c in idx.mro(ci):
+        for mname, m in c.methods.items():
+            if id(m.node) not in relevant:
                 continue
             recv_of_mut = set()
             for n in df.body_nodes(m.node):
